@@ -691,6 +691,9 @@ func Fail(format string, a ...interface{}) {
 	panic(abortSignal{})
 }
 
+// CurrentName returns the name of the running thread.
+func CurrentName() string { return must().cur.Name }
+
 // CurrentThread returns the id of the running thread.
 func CurrentThread() int { return must().cur.ID }
 
